@@ -40,6 +40,14 @@ position (every position of the history), one with a boundary after every op and
 (thorough: all pairs of positions as well) - e.g. attribute created in an older container, overwritten
 and deleted within one later container.
 
+A third family (`family="relocate-history"`, `gen_relocate_case`): container-level copy (with / without metadata) and move between
+the NEWEST container and the past. The history has MARKS; older material (datasets, groups, metadata, attributes; partly deleted
+or replaced again) lies before a mark, each round starts with a mark right before new material is created, and the copies / moves
+take mostly such a fresh node as SOURCE and a name with a PAST as DESTINATION: a node that exists only before the mark (must be
+REFUSED as on h5py.File), a name deleted / vacated before or after the mark, the name of a replaced node, a name below either, a
+name taken by another fresh node. The variants put their boundaries at the marks: all of them (patch; patch + reopen), a single one
+(everything older in one container, the source in the next), random subsets and kinds.
+
 Values: dataset values are plain strings (token `t<n>`) or TYPED values (`TYPED`: numpy scalars / small arrays whose
 stored bytes lie around the byte 0x7f of the IH5 deletion marker - int8 / uint8 126, 127, 128, the 1-character byte strings
 ~ DEL \x80, booleans, wider integers / strings / opaque values that contain the byte; the marker np.void(b"\x7f") itself is
@@ -306,6 +314,7 @@ class _Run9(C._Run):
         self.attr_born = {}
         self.meta_born = {}
         self.copied = {}
+        self.dead_born = {}  # path named by a successful delete / move -> container in which the node had been made
 
     # ------------------------------------------------------------------ user-visible view (public API only)
     def user_view(self, queries=True):
@@ -655,6 +664,19 @@ class _Run9(C._Run):
         if not ih5:
             return
         c = self.cont
+        if o in ("copy", "move") and c > 0 and self.born_of(op[1]) == c:
+            # the source was made in the newest container; what is the history of the destination name?
+            dst = op[2]
+            seen = self.steps[-1]["data"] if self.steps else {"/": "g"}
+            res = o if ok else "refused-" + o
+            if dst in seen and not ok and self.born_of(dst) < c:
+                T("refused-%s-of-node-of-newest-container-onto-node-of-older-container" % o)
+            elif dst in seen and not ok:
+                T("refused-%s-of-node-of-newest-container-onto-node-of-newest-container" % o)
+            elif dst not in seen and dst in self.deleted_in and self.dead_born.get(dst, c) < c:
+                T("%s-of-node-of-newest-container-onto-name-of-older-node-deleted-%s" % (res, "in-older-container" if self.deleted_in[dst] < c else "in-newest-container"))
+            elif dst not in seen and any(below(dst, q) and self.dead_born.get(q, c) < c for q in self.deleted_in):
+                T("%s-of-node-of-newest-container-below-name-of-deleted-older-node" % res)
         if o in ("grp", "ds") and st == "ok" and (call_of(self.c9, bi) or {}).get("how") == "require" and op[1] in self.born:
             T("require-of-existing-node")
         elif o in ("grp", "ds") and st == "ok":
@@ -670,6 +692,7 @@ class _Run9(C._Run):
                 T("delete-of-node-from-older-container")
                 if any(h == p or h.startswith(p.rstrip("/") + "/") for h in att_before):
                     T("delete-with-metadata-across-boundary")
+            self.dead_born[p] = self.born_of(p)
             self.forget_under(p)
             self.deleted_in[p] = c
         elif o in ("copy", "move") and st == "ok":
@@ -684,6 +707,7 @@ class _Run9(C._Run):
             if o == "move":
                 if src in self.copied and self.copied[src] < c:
                     T("move-of-copy-across-boundary")
+                self.dead_born[src] = self.born_of(src)
                 self.forget_under(src)
                 self.deleted_in[src] = c
             self.born[dst] = c
@@ -1189,6 +1213,255 @@ def gen_attr_case(rng, quick=True):
     return dict(base=base, obs=[[] for _ in base], final=[], insts=[], call=call, variants=V, family="attribute-history")
 
 
+# relocate histories: copy / move between the newest container and the past
+class _Hist9(C.Shadow):
+    """`Shadow` plus the two facts about the distribution of the nodes over containers that steer `gen_relocate_case`
+    (relative to the MARKS of the history = the positions where the variants put their boundaries): which paths are
+    FRESH (came into being since the last mark, also implicitly as intermediate group, as member of a copied subtree
+    or by re-creation after a deletion) and which have a PAST (existed at some earlier mark: still there, or deleted /
+    moved away / replaced since). Only biases the generator; it never decides a verdict."""
+
+    def __init__(self, names=None):
+        super().__init__(names)
+        self.fresh = set()
+        self.past = set()
+        self.cut = set()  # paths named by deletions / moves (where the deletion itself was recorded)
+
+    def mark(self):
+        self.past |= set(p for p in self.kind if p != "/")
+        self.fresh = set()
+
+    def can_create(self, p):
+        """`p` is free and its nearest existing ancestor is a group"""
+        if p in self.kind or p in ("", "/"):
+            return False
+        q = p
+        while True:
+            q = q.rsplit("/", 1)[0] or "/"
+            if q in self.kind:
+                return self.kind[q] == "g"
+
+    def apply(self, op):
+        before = set(self.kind)
+        o = op[0]
+        if o in ("grp", "ds"):
+            if self.can_create(op[1]):
+                self.add(op[1], "g" if o == "grp" else "d")
+        elif o == "del":
+            if op[1] != "/" and op[1] in self.kind:
+                self.remove(op[1])
+                self.cut.add(op[1])
+        elif o in ("copy", "move"):
+            s, d = op[1], op[2]
+            if s != "/" and s in self.kind and self.can_create(d) and not below(d, s):
+                self.clone(s, d, o == "move" or not op[3], move=o == "move")
+                if o == "move":
+                    self.cut.add(s)
+        elif o == "mset":
+            if op[1] in self.kind and op[4] >= 0:
+                self.meta[op[1]].add(op[2])
+        elif o == "mdel":
+            if op[1] in self.kind:
+                self.meta[op[1]].discard(op[2])
+        self.fresh = set(p for p in self.fresh if p in self.kind) | set(p for p in self.kind if p not in before)
+
+    def live_past(self):
+        """present, stored in older containers only (nothing at this path was made since the last mark)"""
+        return sorted(p for p in self.past if p in self.kind and p not in self.fresh)
+
+    def dead_past(self):
+        """existed at an earlier mark, absent now (deleted / moved away before or after the last mark)"""
+        return sorted(p for p in self.past if p not in self.kind)
+
+    def dead_cut(self):
+        """the same, only the paths that were themselves named by the deletion / move (not those that went with an ancestor)"""
+        return sorted(p for p in self.past if p not in self.kind and p in self.cut)
+
+
+def gen_relocate_case(rng, quick=True):
+    """Container-level copy / move between the NEWEST container and the past (family="relocate-history"). The base history has
+    MARKS (positions where the variants put patch / reopen boundaries). First one to three "older containers" are filled
+    (datasets and groups, also through longer paths so that intermediate groups exist only implicitly; some with metadata
+    and attributes; some deleted or replaced again, before the same or before a later mark). Then rounds that each start
+    with a mark RIGHT BEFORE new material is created (datasets / groups with and without metadata and attributes, siblings
+    of old nodes, metadata attached to old nodes, deletions of old nodes), followed by one to three copies (with / without
+    metadata) / moves whose SOURCE is mostly such a fresh node (dataset, explicit or implicit group, with metadata on or
+    below it) and whose DESTINATION mostly has a past: a node that exists only before the mark (the operation must be
+    REFUSED as on h5py.File, nothing may change), a name deleted / vacated earlier (before or after the mark), the name of
+    a node replaced earlier, a name below either, a name taken by another fresh node; each followed now and then by an
+    operation on / below the destination (also after one more mark). Every op in a random call shape (`pick_call`).
+    Variants: all marks as patch boundaries (IH5Record, IH5MFRecord), as patch + reopen, ONE single mark of a round (all
+    older material in one container, the source in the next), a random subset / kinds, h5py.File with reopen points."""
+    h = _Hist9()
+    base, obs, insts, marks, rounds = [], [], [], [], []
+    nv = [0]
+
+    def val():
+        nv[0] += 1
+        return "t%d" % nv[0]
+
+    def emit(op, nobs=0):
+        h.apply(op)
+        base.append(op)
+        obs.append(C.gen_obs(rng, h, nobs) if nobs else [])
+
+    def mark():
+        if base and (not marks or marks[-1] != len(base)):
+            marks.append(len(base))
+        h.mark()
+
+    def ex():
+        return [p for p in h.nodes() if p != "/"]
+
+    def path(tries=4):
+        """mostly a name that can be created now"""
+        for _ in range(tries):
+            p = "/" + "/".join(rng.choice(h.names) for _ in range(rng.choice([1, 2, 2, 3])))
+            if h.can_create(p):
+                break
+        return p
+
+    def parent(p):
+        return p.rsplit("/", 1)[0] or "/"
+
+    def attach(p):
+        free = [n for n in C.ATTACHABLE if n not in h.meta.get(p, ())] or C.ATTACHABLE
+        name = rng.choice(free)
+        k = len(insts)
+        insts.append([name, None, C.make_instance_dict(name, k)])
+        emit(["mset", p, name, None, k])
+
+    def attr(p):
+        emit(["sattr", p, rng.choice(C.ATTR_KEYS), rng.choice(C.ATTR_VALS)])
+
+    # the past
+    for _ in range(rng.choice([1, 1, 2, 2] if quick else [1, 1, 2, 2, 3])):
+        for _ in range(rng.randrange(2, 5)):
+            r = rng.random()
+            e = ex()
+            if r < 0.4 or not e:
+                emit(["ds", path(), val()])
+            elif r < 0.5:
+                emit(["grp", path()])
+            elif r < 0.7:
+                attach(rng.choice(e))
+            elif r < 0.78:
+                attr(rng.choice(e))
+            elif r < 0.9:
+                emit(["del", rng.choice(e)])
+            else:  # replaced: deleted and made again (as the same or the other kind of node)
+                p = rng.choice(e)
+                emit(["del", p])
+                emit(["grp", p] if rng.random() < 0.5 else ["ds", p, val()])
+        mark()
+    # rounds in the newest container
+    for _ in range(rng.choice([1, 1, 2] if quick else [1, 2, 2, 3])):
+        mark()
+        rounds.append(len(base))
+        for _ in range(rng.randrange(1, 4)):
+            r = rng.random()
+            fr, live = sorted(h.fresh), h.live_past()
+            pa = live + h.dead_past()
+            if r < 0.38:
+                emit(["ds", path(), val()])
+            elif r < 0.5:
+                emit(["grp", path()])
+            elif r < 0.66 and fr:
+                attach(rng.choice(fr))
+            elif r < 0.73 and fr:
+                attr(rng.choice(fr))
+            elif r < 0.82 and pa:  # a sibling of a node with a past: its parent group gets a node in the newest container
+                emit(["ds", parent(rng.choice(pa)).rstrip("/") + "/" + rng.choice(h.names), val()])
+            elif r < 0.88 and live:  # metadata attached in the newest container to a node of an older one
+                attach(rng.choice(live))
+            elif ex():  # deleted after the mark
+                emit(["del", rng.choice(live or ex())])
+        if not h.fresh:
+            emit(["ds", path(), val()])
+        for _ in range(rng.randrange(1, 4)):
+            fr, e = sorted(h.fresh), ex()
+            if not e:
+                break
+            frg = [p for p in fr if h.kind[p] == "g"]
+            frm = [p for p in fr if any(h.meta.get(q) for q in h.under(p))]
+            r = rng.random()
+            if not fr or r < 0.15:
+                src = rng.choice(e)
+            elif frm and r < 0.5:
+                src = rng.choice(frm)
+            elif frg and r < 0.7:
+                src = rng.choice(frg)
+            else:
+                src = rng.choice(fr)
+            live, dead, cut = h.live_past(), h.dead_past(), h.dead_cut()
+            r = rng.random()
+            if r < 0.28 and live:
+                dst = rng.choice(live)  # taken by a node of an older container: refused
+            elif r < 0.62 and dead:
+                dst = rng.choice(cut) if cut and rng.random() < 0.7 else rng.choice(dead)
+            elif r < 0.77 and live + dead:
+                dst = rng.choice(live + dead) + "/" + rng.choice(h.names)
+            elif r < 0.85 and fr:
+                dst = rng.choice(fr)  # taken by a node of the newest container: refused
+            else:
+                dst = path()
+            if dst == src or below(dst, src):
+                continue
+            q = parent(dst)
+            if q != "/" and h.kind.get(q) == "g" and q not in h.fresh and rng.random() < 0.35:
+                # the destination's parent gets a node in the newest container first (a new sibling or an attribute)
+                if rng.random() < 0.5:
+                    emit(["ds", q + "/" + rng.choice([n for n in h.names if q + "/" + n != dst] or h.names), val()])
+                else:
+                    attr(q)
+            if rng.random() < 0.55:
+                emit(["move", src, dst], nobs=3)
+            else:
+                emit(["copy", src, dst, rng.random() < 0.35, rng.random() < 0.15], nobs=3)
+            if rng.random() < 0.5:
+                if rng.random() < 0.3:
+                    mark()
+                r = rng.random()
+                if r < 0.2:
+                    emit(["ds", dst + "/" + rng.choice(h.names), val()])
+                elif r < 0.35:
+                    attr(dst)
+                elif r < 0.5:
+                    emit(["del", dst], nobs=2)
+                elif r < 0.65 and dst in h.kind:
+                    attach(dst)
+                elif r < 0.75:
+                    emit(["ds", dst, val()])
+                else:
+                    emit([rng.choice(PROBE_OPS), dst if rng.random() < 0.6 else dst + "/" + rng.choice(h.names)])
+        if rng.random() < 0.5:
+            mark()
+    if base:
+        obs[-1] = obs[-1] + C.gen_obs(rng, h, 3)
+    final = C.gen_obs(rng, h, 12 if quick else 30)
+    G = _Groups()
+    call = []
+    for op in base:
+        call.append(pick_call(rng, G, op, 0.5))
+        G.note(op)
+    marks = [m for m in marks if 0 < m <= len(base)]
+    rounds = [m for m in rounds if m in marks]
+    allp = [[m, "patch"] for m in marks]
+    V = [dict(driver="h5", ins=[]),
+         dict(driver="ih5", ins=allp),
+         dict(driver="mf", ins=[x for m in marks for x in ([[m, "patch"], [m, "reopen"]] if rng.random() < 0.3 else [[m, "patch"]])])]
+    singles = [dict(driver=rng.choice(["ih5", "ih5", "mf"]), ins=[[m, rng.choice(["patch", "patch", "reopen"])]]) for m in rounds]
+    rng.shuffle(singles)
+    more = [dict(driver="ih5", ins=[x for m in marks for x in ([m, "patch"], [m, "reopen"])]),
+            dict(driver=rng.choice(["ih5", "mf"]), ins=[[m, rng.choice(["patch", "reopen"])] for m in marks if rng.random() < 0.7]),
+            dict(driver="h5", ins=[[m, "reopen"] for m in marks])]
+    if quick:
+        V += singles[:1] + [rng.choice(singles[1:] + more)]
+    else:
+        V += singles + more
+    return dict(base=base, obs=obs, final=final, insts=insts, call=call, variants=V, family="relocate-history")
+
+
 # --------------------------------------------------------------------------- model lines
 def model_line(op, call):
     """every call shape is the same model op on the resolved absolute path; `require_*` is the
@@ -1284,6 +1557,7 @@ def compare(case, ir, mo):
 # --------------------------------------------------------------------------- run
 N_CASES = {"quick": 36, "thorough": 280}
 N_ATTR = {"quick": 9, "thorough": 36}
+N_RELOC = {"quick": 8, "thorough": 60}
 
 
 def run(ctx):
@@ -1295,7 +1569,12 @@ def run(ctx):
                 "as path or as group object (for the model the same op on the resolved absolute path). Second family ATTRIBUTE HISTORIES: on a "
                 "small tree the same (node, attribute name) is set, overwritten, deleted and deleted-when-missing repeatedly (node now and then "
                 "deleted+re-created, moved, copied), with one variant per single boundary position (every position), after every op, random "
-                "subsets (thorough: all pairs). All over installed schemas and the harness-registered vt.* family, executed in K variants "
+                "subsets (thorough: all pairs). Third family RELOCATE HISTORIES: older material (datasets, groups - also implicit ones -, metadata, "
+                "attributes, partly deleted / replaced again), then rounds that start with a MARK right before new material is made and copy "
+                "(with / without metadata) / move mostly such a fresh node onto a name with a past: a node that exists only before the mark "
+                "(refused on every driver), a name deleted / vacated before or after the mark, a replaced node's name, a name below either, "
+                "a name taken by another fresh node; follow-up op on / below the destination; variants = patch / reopen boundaries at all "
+                "marks, at one single mark, at random subsets. All over installed schemas and the harness-registered vt.* family, executed in K variants "
                 "on the REAL code: variant 0 = h5py.File; others = IH5Record / IH5MFRecord / h5py.File with commit_patch+create_patch "
                 "boundaries and close/reopen points inserted at random positions, at none, after every op, directly one after the other, and "
                 "targeted between dependent ops (create|attach, copy|move, delete|re-create). VALUES of datasets / attributes: strings, ints, "
@@ -1353,6 +1632,8 @@ def run(ctx):
         cases.append(gen_case(ctx.rng, quick=ctx.quick))
     for _ in range(N_ATTR["quick" if ctx.quick else "thorough"]):
         cases.append(gen_attr_case(ctx.rng, quick=ctx.quick))
+    for _ in range(N_RELOC["quick" if ctx.quick else "thorough"]):
+        cases.append(gen_relocate_case(ctx.rng, quick=ctx.quick))
     ctx.correspond("lockstep-and-container-model", MOD, cases, lines, "drv_ctr", compare=compare, timeout=420)
     for c in cases:
         ctx.dist["base-len:%02d-%02d" % (len(c["base"]) // 5 * 5, len(c["base"]) // 5 * 5 + 4)] += 1
@@ -1519,7 +1800,8 @@ def search(ctx):
 
     for k in range(1, 4):
         sub = core.Ctx(ID, "quick" if k < 3 else "thorough", ctx.seed + 7919 * k)
-        cases = [gen_case(sub.rng, quick=(k < 3)) for _ in range(60)] + [gen_attr_case(sub.rng, quick=(k < 3)) for _ in range(20)]
+        cases = ([gen_case(sub.rng, quick=(k < 3)) for _ in range(60)] + [gen_attr_case(sub.rng, quick=(k < 3)) for _ in range(20)]
+                 + [gen_relocate_case(sub.rng, quick=(k < 3)) for _ in range(30)])
         res = pool.run(MOD, "impl", cases, timeout=420)
         ctx.search_log.append("seed %d: %d base histories x variants, lock-step oracle only" % (sub.seed, len(cases)))
         for c, r in zip(cases, res):
